@@ -88,6 +88,8 @@ class ContractDB:
         self.loops = Loops(self)
         self.externals = Externals(self)
         self.contracts: dict[str, Contract] = {}
+        self.variants: dict[str, list] = {}
+        self.all_contracts: dict[str, Contract] = {}
         self.specs: dict[str, _SpecFunc] = {}
         self.aliases: dict[str, str] = {}
         self.lemmas: dict[str, tuple] = {}
@@ -134,7 +136,12 @@ class ContractDB:
                         for kw in d.keywords:
                             if kw.arg == "props":
                                 props = ast.literal_eval(kw.value)
-                        self.contracts[target] = Contract(target, modname, st, props, path)
+                        c = Contract(target, modname, st, props, path)
+                        if "#" in target:
+                            self.variants.setdefault(target.split("#")[0], []).append(c)
+                        else:
+                            self.contracts[target] = c
+                        self.all_contracts[target] = c
 
     def class_alias(self, n: str) -> Optional[str]:
         if n in self.aliases:
@@ -147,12 +154,42 @@ class ContractDB:
     def type_override(self, module, ann):
         return None
 
-    def contract_for(self, fi: FuncInfo, recv_cls: Optional[str] = None) -> Optional[Contract]:
+    def contract_for(self, fi: FuncInfo, recv_cls: Optional[str] = None, args=None, kwargs=None) -> Optional[Contract]:
+        keys = []
         if recv_cls is not None and fi.cls is not None:
-            k = f"{recv_cls}.{fi.name}"
+            keys.append(f"{recv_cls}.{fi.name}")
+        keys.append(fi.qname)
+        for k in keys:
             if k in self.contracts:
                 return self.contracts[k]
-        return self.contracts.get(fi.qname)
+            vs = self.variants.get(k)
+            if vs:
+                if args is None:
+                    return vs[0]
+                return self.select_variant(vs, fi, args, kwargs or {})
+        return None
+
+    def select_variant(self, cands, fi: FuncInfo, args, kwargs):
+        from .tys import VSlice, TInt, TBool, TSeq, TTuple
+        a = fi.node.args
+        names = [p.arg for p in a.posonlyargs + a.args]
+        bound = dict(zip(names, args))
+        bound.update(kwargs)
+
+        def matches(tstr, v):
+            if tstr == "Slice":
+                return isinstance(v, VSlice)
+            if isinstance(v, VSlice):
+                return False
+            if tstr in ("int", "Opt[int]"):
+                return isinstance(v, SV) and (v.ty in (TInt, TBool) or (isinstance(v.ty, TOpt) and v.ty.inner is TInt))
+            if tstr.startswith("TupSeq") or tstr.startswith("Tup["):
+                return isinstance(v, PyTuple) or (isinstance(v, SV) and (isinstance(v.ty, TTuple) or (isinstance(v.ty, TSeq) and v.ty.tuple_)))
+            return True
+        for c in cands:
+            if all(matches(t, bound[n]) for n, t in c.types.items() if n in bound):
+                return c
+        raise Unsupported(f"no contract variant of {fi.qname} matches the arguments")
 
     # ------------------------------------------------------------------ clause evaluation
     def eval_clauses_fn(self, it, fn: ast.FunctionDef, fr: Frame, raw=False):
@@ -301,6 +338,10 @@ class ContractDB:
             if t is not None and n in env and not (n == "self"):
                 try:
                     v = env[n]
+                    from .tys import TUnion as _TU
+                    if isinstance(v, SV) and isinstance(v.ty, (TOpt, _TU)) and not isinstance(t, (TOpt, _TU)) and not fr.pure:
+                        v = it.force(v, fr)
+                        env[n] = v
                     if isinstance(v, (PyList, PyTuple)) or (isinstance(v, SV) and v.ty != t):
                         env[n] = it.coerce(it.cdb.builtins.literal_as(it, v, t, fr), t)
                 except Unsupported:
@@ -343,6 +384,17 @@ class ContractDB:
         return result
 
     def apply_contract_pure(self, it, con, fi, env, fr):
+        if getattr(fr, "pure_code", False):
+            # real code evaluated purely (comprehension element on a generic index): the callee's
+            # precondition and "does not raise" become obligations quantified over the binders
+            if con.requires is not None:
+                nfr = self.contract_frame(it, con, self.fn_env(con.requires, env), fr)
+                for name, term in self.eval_clauses_fn(it, con.requires, nfr):
+                    it.oblige_pure(f"purecall:{fi.qname}/pre:{name}", term, site=("ppre", fi.qname, name))
+            if con.raises is not None:
+                nfr = self.contract_frame(it, con, self.fn_env(con.raises, env), fr)
+                for exc_name, cond in self.raise_clauses(it, con, nfr):
+                    it.oblige_pure(f"purecall:{fi.qname}/no-raise:{exc_name}", z3.Not(cond), site=("praise", fi.qname, exc_name))
         rty = self.return_type(it, con, fi)
         if rty is None or rty is TNone:
             return NONE
